@@ -68,7 +68,9 @@ def build_image(rng, geo, populate=1, free_left=None, dirty_free=0, second_parti
         meta["files"]["/SUB/INNER.DAT"] = node
         if big_dir:
             for i in range(16 * v.spc * 2 + 3):
-                v.add_file(d, "F%d.X" % i, b"x" * (i % 3))
+                node = v.add_file(d, "F%d.X" % i, b"x" * (i % 3))
+                if i % 7 == 0 or i >= 16 * v.spc * 2 - 2:
+                    meta["files"]["/SUB/F%d.X" % i] = node
         if rng.chance(1, 2):
             d2 = v.add_dir(d, "DEEP")
             meta["dirs"]["/SUB/DEEP"] = d2
